@@ -152,11 +152,21 @@ def run_finder(ctx, spec, tag='loop'):
     rms = abs(spec['amp']) / spec['snr']
     if spec.get('noise_seed') is not None:
         img = img + rms * noise_for(spec, spec['noise_seed'])
+    if spec.get('pedestal') is not None:
+        img = img + spec['pedestal'][0]
     path = os.path.join(ctx.work, f'{tag}.fits')
     write_image(path, img.astype(np.float64), header_of(spec))
     kw = dict(cores=1, innerclip=5, outerclip=4, docov=bool(spec.get('docov', True)))
     if not spec.get('internal'):
         kw.update(rms=rms, bkg=0.0)
+    if spec.get('pedestal') is not None:
+        # the source sits on a constant background level: either the level is given (bkg=level) or only the noise is given and the
+        # background is left to the finder's own estimate (rms=.., bkg not given: the documented "--forcerms" alone)
+        level, mode = spec['pedestal']
+        if mode == 'given':
+            kw.update(rms=rms, bkg=level)
+        else:
+            kw.pop('bkg', None)
     found = SourceFinder(log=logging.getLogger('c01')).find_sources_in_image(path, **kw)
     rows = []
     for s in found:
@@ -827,6 +837,15 @@ def run(ctx, model_ok=True):
         widths[w] = widths.get(w, 0) + 1
         nar[one(spec, k, f'narrow island ({w} px)', f'n{k % 4}')] += 1
     ctx.extra['narrow'] = {'classes': nar, 'island_widths': widths}
+    # sources on a constant background level (the injected Gaussian is the signal ABOVE the background): level given (bkg=level), or
+    # only the noise level given (rms=.., background estimated by the finder itself)
+    npd = 6 if quick else 40
+    pdc = {'pass': 0, 'ridge_split': 0, 'amp_bound': 0, 'shape_cap': 0, 'fixed2psf': 0, 'violation': 0}
+    for k in range(npd):
+        spec = gen_spec(rng, k, want_ok=True)
+        spec['pedestal'] = (rng.choice([0.035, -0.02, 0.3, 1.5]) * abs(spec['amp']), 'given' if k % 2 else 'estimated')
+        pdc[one(spec, k, f"pedestal {spec['pedestal'][1]}", f'p{k % 4}')] += 1
+    ctx.extra['pedestal'] = pdc
     ctx.notes.append(f"narrow-island injections (minor axis = beam, along a pixel axis, S/N 5.4-14): {nar}; island widths {widths}")
     ctx.notes.append(f"elongated injections (axis ratio 2.5-5, all orientations, S/N 20 / 100): {el}")
     # flags of every reported component = Model.SmallIsland.fit_flags of its island (optimiser bits FITERR, WCSERR put aside)
